@@ -206,8 +206,8 @@ func (w *World) genContainer(depth int, addr atree.Address) (*Node, error) {
 	if n.TI.Composite && r.Intn(3) == 0 {
 		// composite values with many fields (the shared key / digest lists of the compact form grow past the sizes
 		// that fit the encoder's scratch space)
-		cnt = 7 + r.Intn(14)
-		w.stats.Extra["composite-maps-with-7-to-20-fields"]++
+		cnt = 7 + r.Intn(28)
+		w.stats.Extra["composite-maps-with-7-to-34-fields"]++
 	}
 	w.logOp("  (new child %s with %d elements)", n, cnt)
 	w.traceOn = false
